@@ -521,7 +521,7 @@ macro_rules! rp_builder {
                 |e| dbg(&e),
             )];
             // RandomProjectionParams implements neither Debug nor PartialEq: no snapshot of the unchecked builder
-            judge(case, spec, &make, &|_| String::new(), &|c| dbg(c), ops, out);
+            judge(case, spec, &make, &|_| String::new(), &|c| format!("target_dim={:?} eps={:?}", c.target_dim(), c.eps()), ops, out);
         }
     };
 }
